@@ -57,6 +57,9 @@ SliceTab ==
     "reoptS" :> S(SH, <<>>, {}, {"+"}, FALSE, {3}, {}, {}, 1, "Out", 2, FALSE) @@
     "arrS"   :> S(MIX, <<>>, {}, {}, FALSE, {}, {}, {0, 2}, 0, "Arr", 2, TRUE) @@
     "arrM"   :> S(MIX, K3, {}, {}, FALSE, {}, {}, {0, 2, 0 - 1}, 0, "Arr", 2, TRUE) @@
+    \* units whose rate requirement covers several inputs (first n inputs audio): valid and invalid combinations
+    "nS"     :> S(MIX, <<>>, {}, {}, FALSE, {}, {"XFade2", "LinXFade2", "Balance2", "Rotate2", "BiPanB2", "FreeVerb2", "DecodeB2",
+                                               "Pan4", "PanB", "LPF", "HPF"}, {}, 1, "Out", 2, TRUE) @@
     "twoS"   :> S(MIX, <<>>, {"neg"}, {"+", "*"}, FALSE, {}, {}, {2}, 1, "Out2", 2, FALSE) @@
     "zeroS"  :> S(AR2, <<>>, {"neg"}, {"+", "*"}, FALSE, {}, {}, {0}, 1, "Out0", 2, FALSE) @@
     "localS" :> S(MIX, <<>>, {"neg"}, {"+"}, FALSE, {}, {}, {2}, 1, "LocalOut", 1, FALSE) @@
@@ -109,12 +112,16 @@ AddBin == ~done /\ NOps < Slice.n /\ \E sel \in Slice.bin, a \in Atoms, b \in At
 AddMAdd == ~done /\ NOps < Slice.n /\ Slice.madd /\ \E a \in Signals, m \in Atoms, d \in Atoms : Try(MAdd(a, m, d))
 AddSum == ~done /\ NOps < Slice.n /\ \E k \in Slice.sums :
               \E xs \in [1..k -> Atoms] : NotAllConst(xs) /\ Try(Sum(xs))
-\* a further unit fed by earlier results (first input any signal, the rest constants)
-AddGen == ~done /\ NOps < Slice.n /\ \E cls \in Slice.gens, rate \in {1, 2}, a \in Signals :
+\* a further unit fed by earlier results: every input position the class puts a rate requirement on (and the first one)
+\* takes any signal - all combinations, so each checked position in turn is the only bad one - the rest constants
+Checked(c) == {1} \cup c.aud \cup c.same
+AddGen == ~done /\ NOps < Slice.n /\ \E cls \in Slice.gens, rate \in {1, 2} :
               LET c == ClassTab[cls]
                   nout == IF c.nout < 0 THEN 2 ELSE c.nout
-                  args == [j \in 1..c.lo |-> IF j = 1 THEN a ELSE C(1)] IN
-              rate \in c.rates /\ Try(Gen(cls, rate, nout, args))
+                  pos == Checked(c) \cap (1..c.lo) IN
+              /\ rate \in c.rates
+              /\ \E xs \in [pos -> Signals] :
+                    Try(Gen(cls, rate, nout, [j \in 1..c.lo |-> IF j \in pos THEN xs[j] ELSE C(1)]))
 Finish == /\ ~done /\ Slice.sink \notin {"Out2", "Arr"}
           /\ \E a \in Signals :
                LET fixed == IF Slice.sink = "LocalOut" THEN <<>> ELSE <<C(0)>>
@@ -155,11 +162,13 @@ RAddBin == ~done /\ NOps < Slice.n /\ Slice.bin # {} /\ \E sel \in Pick(Slice.bi
 RAddMAdd == ~done /\ NOps < Slice.n /\ Slice.madd /\ \E a \in Pick(Signals), m \in Pick(Atoms), d \in Pick(Atoms) : Try(MAdd(a, m, d))
 RAddSum == ~done /\ NOps < Slice.n /\ Slice.sums # {} /\ \E k \in Pick(Slice.sums) :
                \E xs \in {[j \in 1..k |-> RandomElement(Atoms)]} : NotAllConst(xs) /\ Try(Sum(xs))
-RAddGen == ~done /\ NOps < Slice.n /\ Slice.gens # {} /\ \E cls \in Pick(Slice.gens), rate \in Pick({1, 2}), a \in Pick(Signals) :
+RAddGen == ~done /\ NOps < Slice.n /\ Slice.gens # {} /\ \E cls \in Pick(Slice.gens), rate \in Pick({1, 2}) :
               LET c == ClassTab[cls]
                   nout == IF c.nout < 0 THEN 2 ELSE c.nout
-                  args == [j \in 1..c.lo |-> IF j = 1 THEN a ELSE C(1)] IN
-              rate \in c.rates /\ Try(Gen(cls, rate, nout, args))
+                  pos == Checked(c) \cap (1..c.lo) IN
+              /\ rate \in c.rates
+              /\ \E xs \in {[j \in pos |-> RandomElement(Signals)]} :
+                    Try(Gen(cls, rate, nout, [j \in 1..c.lo |-> IF j \in pos THEN xs[j] ELSE C(1)]))
 RFinish == /\ ~done /\ NOps >= Slice.n \div 2 /\ Slice.sink \notin {"Out2", "Arr"}
            /\ \E a \in Pick(Signals) :
                LET fixed == IF Slice.sink = "LocalOut" THEN <<>> ELSE <<C(0)>>
